@@ -90,6 +90,8 @@ pub enum Col {
     ArrLen256,
     /// long arrays (254..260, 300, 511..513, 1024 bytes) sharing all but their last three bytes
     ArrLong,
+    /// the first entry holds an array of 16 MiB (0x1000000 bytes, one more than an array length can say), the others a few bytes
+    ArrHuge,
     /// content addresses: `packs` distinct pack ids, content ids below `maxid`
     Content { packs: u16, maxid: u32 },
     /// references: pattern over entry numbers
@@ -179,6 +181,7 @@ fn col_to_json(c: &Col) -> Value {
         Col::ArrAroundPrefix => json!("arr_prefix"),
         Col::ArrLen256 => json!("arr_len256"),
         Col::ArrLong => json!("arr_long"),
+        Col::ArrHuge => json!("arr_huge"),
         Col::SeqDup => json!("seq_dup"),
         Col::Content { packs, maxid } => json!({"content": [packs, maxid]}),
         Col::Tree(b) => json!({"tree": b}),
@@ -199,6 +202,7 @@ fn col_from_json(v: &Value) -> Col {
             "arr_prefix" => Col::ArrAroundPrefix,
             "arr_len256" => Col::ArrLen256,
             "arr_long" => Col::ArrLong,
+            "arr_huge" => Col::ArrHuge,
             "seq_dup" => Col::SeqDup,
             _ => Col::Small,
         };
@@ -488,6 +492,16 @@ pub fn expand(case: &DirCase, si: usize) -> Vec<EntryModel> {
                     let tail = rng.bytes(3);
                     a[len - 3..].copy_from_slice(&tail);
                     Val::A(a)
+                }
+                (PKind::Array { .. }, Col::ArrHuge) => {
+                    if e == 0 {
+                        let mut a = vec![b'h'; 0x100_0000];
+                        let tail = rng.bytes(8);
+                        a[..8].copy_from_slice(&tail);
+                        Val::A(a)
+                    } else {
+                        Val::A(format!("s{e:03}").into_bytes())
+                    }
                 }
                 (PKind::Array { .. }, Col::Seq) => Val::A(format!("k{e:07}").into_bytes()),
                 (PKind::Array { .. }, Col::SeqDup) => {
@@ -1111,6 +1125,21 @@ pub fn representable(case: &DirCase, models: &[Vec<EntryModel>]) -> (Repr, Strin
             findings.push((r, format!("{what}: about {size} bytes of tail")));
         }
     };
+    // an array length is stored on at most three bytes
+    for (si, m) in models.iter().enumerate() {
+        let st = &case.stores[si];
+        for e in m {
+            for (name, v) in &e.vals {
+                if let Val::A(a) = v {
+                    // (an array kept whole in an indexed store, without inline prefix, is designated by its key only: no length is stored)
+                    let by_key_only = st.common.iter().chain(st.variants.iter().flat_map(|v| v.props.iter())).any(|p| &p.name == name && matches!(p.kind, PKind::Array { prefix: 0, store } if case.vstores.get(store).copied().unwrap_or(false)));
+                    if a.len() > 0xFF_FFFF && !by_key_only {
+                        return (Repr::No, format!("entry store {si} property {name}: an array of {} bytes (an array length takes three bytes at most)", a.len()));
+                    }
+                }
+            }
+        }
+    }
     // indexed value stores: distinct stored parts over every column using the store
     for (vi, indexed) in case.vstores.iter().enumerate() {
         if !*indexed {
